@@ -57,7 +57,7 @@ func tf(b bool) string {
 	return "F"
 }
 
-func (w *writer) header(h *Hier, withStatics bool, body func(c int)) {
+func (w *writer) header(h *Hier, withStatics bool, ar [][NM]int, body func(c int)) {
 	w.p("<?php\n")
 	for i := 0; i < h.NI; i++ {
 		w.p("interface %s", h.iname(i))
@@ -72,7 +72,7 @@ func (w *writer) header(h *Hier, withStatics bool, body func(c int)) {
 		w.p(" {\n")
 		for j := 0; j < NM; j++ {
 			if h.IM[i][j] {
-				w.p("  public function m%d(%s);\n", j, params(h.Arity[h.inode(i)][j]))
+				w.p("  public function m%d(%s);\n", j, params(ar[h.inode(i)][j]))
 			}
 		}
 		w.p("}\n")
@@ -119,7 +119,7 @@ func (h *Hier) scriptA() Script {
 		types = append(types, tref{"Exception", -1}, tref{"Throwable", -1})
 	}
 
-	w.header(h, true, func(c int) {
+	w.header(h, true, h.Arity, func(c int) {
 		cn := h.cname(c)
 		for j := 0; j < NM; j++ {
 			if h.CM[c][j] == 0 {
@@ -162,11 +162,32 @@ func (h *Hier) scriptA() Script {
 				w.p("  public static function sself_%s_s%d() { return self::s%d(); }\n", cn, j, j)
 				w.p("  public static function sstat_%s_s%d() { return static::s%d(); }\n", cn, j, j)
 			}
+			if h.sprovides(c, j) >= 0 {
+				// chains of late-bound hops: every hop is found on an ancestor of the runtime class when
+				// the object/class is a descendant of this one, and the last hop still has to bind to
+				// the runtime class
+				w.p("  public static function lb2_%s_s%d() { return static::sstat_%s_s%d(); }\n", cn, j, cn, j)
+				w.p("  public static function lb3_%s_s%d() { return static::lb2_%s_s%d(); }\n", cn, j, cn, j)
+				w.p("  public function ilb2_%s_s%d() { return static::sstat_%s_s%d(); }\n", cn, j, cn, j)
+				w.p("  public function ilb3_%s_s%d() { return static::lb2_%s_s%d(); }\n", cn, j, cn, j)
+				if r := h.topProvider(c, j); r != c {
+					w.p("  public static function lbx_%s_s%d() { return static::sstat_%s_s%d(); }\n", cn, j, h.cname(r), j)
+				}
+			}
 			if p := h.Parent[c]; p >= 0 && h.sprovides(p, j) >= 0 {
 				w.p("  public function ipar_%s_s%d() { return parent::s%d(); }\n", cn, j, j)
 				w.p("  public static function spar_%s_s%d() { return parent::s%d(); }\n", cn, j, j)
 			}
 		}
+		w.p("  public static function lbc2_%s() { return static::slsb_%s(); }\n", cn, cn)
+		w.p("  public function ilbc2_%s() { return static::slsb_%s(); }\n", cn, cn)
+		ctorArgs := ""
+		if h.throwable(c) {
+			ctorArgs = "\"x\""
+		}
+		w.p("  public static function mk_%s() { return new static(%s); }\n", cn, ctorArgs)
+		w.p("  public static function lbn2_%s() { return static::mk_%s(); }\n", cn, cn)
+		w.p("  public function ilbn2_%s() { return static::mk_%s(); }\n", cn, cn)
 		w.p("  public function cls_%s() { return self::class; }\n", cn)
 		w.p("  public function lsb_%s() { return static::class; }\n", cn)
 		w.p("  public static function scls_%s() { return self::class; }\n", cn)
@@ -294,6 +315,18 @@ func (h *Hier) scriptA() Script {
 					w.row(mk("fi", x, s, wx), fmt.Sprintf("%s::sself_%s_%s()", yn, xn, s))
 					w.row(mk("fj", x, s, wy), fmt.Sprintf("%s::sstat_%s_%s()", yn, xn, s))
 				}
+				if h.sprovides(x, j) >= 0 {
+					wy := h.smarker(h.sprovides(y, j), j)
+					w.row(mk("g2", x, s, wy), fmt.Sprintf("%s::lb2_%s_%s()", yn, xn, s))
+					w.row(mk("g3", x, s, wy), fmt.Sprintf("%s::lb3_%s_%s()", yn, xn, s))
+					if h.topProvider(x, j) != x {
+						w.row(mk("gx", x, s, wy), fmt.Sprintf("%s::lbx_%s_%s()", yn, xn, s))
+					}
+					if inst {
+						w.row(mk("h2", x, s, wy), fmt.Sprintf("%s->ilb2_%s_%s()", o, xn, s))
+						w.row(mk("h3", x, s, wy), fmt.Sprintf("%s->ilb3_%s_%s()", o, xn, s))
+					}
+				}
 				if p := h.Parent[x]; p >= 0 && h.sprovides(p, j) >= 0 {
 					wp := h.smarker(h.sprovides(p, j), j)
 					if inst {
@@ -305,6 +338,14 @@ func (h *Hier) scriptA() Script {
 			if inst {
 				w.row(mk("dc", x, "class", xn), fmt.Sprintf("%s->cls_%s()", o, xn))
 				w.row(mk("dd", x, "class", yn), fmt.Sprintf("%s->lsb_%s()", o, xn))
+			}
+			w.row(mk("gc", x, "class", yn), fmt.Sprintf("%s::lbc2_%s()", yn, xn))
+			if inst {
+				w.row(mk("hc", x, "class", yn), fmt.Sprintf("%s->ilbc2_%s()", o, xn))
+				// `new static()` needs an instantiable runtime class
+				w.row(mk("n1", x, "class", yn), fmt.Sprintf("get_class(%s::mk_%s())", yn, xn))
+				w.row(mk("gn", x, "class", yn), fmt.Sprintf("get_class(%s::lbn2_%s())", yn, xn))
+				w.row(mk("hn", x, "class", yn), fmt.Sprintf("get_class(%s->ilbn2_%s())", o, xn))
 			}
 			w.row(mk("fc", x, "class", xn), fmt.Sprintf("%s::scls_%s()", yn, xn))
 			w.row(mk("fd", x, "class", yn), fmt.Sprintf("%s::slsb_%s()", yn, xn))
@@ -320,22 +361,22 @@ func (h *Hier) directMethods(t int) []msig {
 	var out []msig
 	for j := 0; j < NM; j++ {
 		if h.declares(t, j) {
-			out = append(out, msig{j, h.Arity[t][j]})
+			out = append(out, msig{j, h.ArB[t][j]})
 		}
 	}
 	return out
 }
 
-// allMethods: direct declarations plus everything inherited from supertypes.
+// allMethods: every declaration of T and of every supertype of T (each with its own parameter
+// count). Any reading of "the methods T declares" lies between directMethods and this set, and
+// `has` can only get falser with more requirements, so when the two ends agree every reading
+// agrees.
 func (h *Hier) allMethods(t int) []msig {
 	var out []msig
 	for j := 0; j < NM; j++ {
 		for s := 0; s < h.N(); s++ {
 			if h.sub[t][s] && h.declares(s, j) {
-				// nearest provider wins for classes; parameter counts agree among related
-				// declarations by construction
-				out = append(out, msig{j, h.Arity[s][j]})
-				break
+				out = append(out, msig{j, h.ArB[s][j]})
 			}
 		}
 	}
@@ -345,7 +386,7 @@ func (h *Hier) allMethods(t int) []msig {
 func (h *Hier) has(y int, ms []msig) bool {
 	for _, m := range ms {
 		d := h.provides(y, m.j)
-		if d < 0 || h.Arity[d][m.j] != m.ar {
+		if d < 0 || h.ArB[d][m.j] != m.ar {
 			return false
 		}
 	}
@@ -355,10 +396,10 @@ func (h *Hier) has(y int, ms []msig) bool {
 // scriptB prints the bare hierarchy (only the declared methods) and every `$o like T` row.
 func (h *Hier) scriptB() Script {
 	w := &writer{h: h}
-	w.header(h, false, func(c int) {
+	w.header(h, false, h.ArB, func(c int) {
 		for j := 0; j < NM; j++ {
 			if h.CM[c][j] != 0 {
-				w.p("  public function m%d(%s) { return \"%s::m%d\"; }\n", j, params(h.Arity[c][j]), h.cname(c), j)
+				w.p("  public function m%d(%s) { return \"%s::m%d\"; }\n", j, params(h.ArB[c][j]), h.cname(c), j)
 			}
 		}
 	})
@@ -388,7 +429,7 @@ func (h *Hier) scriptB() Script {
 					switch {
 					case d < 0:
 						missing = true
-					case h.Arity[d][m.j] != m.ar:
+					case h.ArB[d][m.j] != m.ar:
 						arity = true
 					case d != y:
 						inh = true
